@@ -166,6 +166,53 @@ static void cpp_mode(int family, int alg, int tier)
     hx_sample("C++ %s: carry chains x all histories of depth %d over {encrypt, decrypt, forged decrypt} + probe; set_nonce lengths 0..20; set_counter boundaries", kb, depth);
 }
 
+/* explicit model of a C++ cipher object: (key, nonce).  Every sequence of `depth` member calls over a 14-operation alphabet is run on a fresh object (which starts with
+ * the all-zero key and nonce); every output and every return value is predicted from the model, and a final encryption probes the (key, nonce) pair reached. */
+static void cppseq_mode(int family, int alg, int depth)
+{
+    static const char *fn[] = {"aead", "masked", "siv", "isap"}; char kb[64]; long hist = 0;
+    snprintf(kb, sizeof kb, "session:cpp-sequences:%s:%s", fn[family], family == 3 ? api_isap_name[alg] : api_alg_name[alg]);
+    int klen = family == 3 ? ref_isap_keylen(alg) : ref_keylen(alg);
+    static const uint8_t ZK[20]; static uint8_t K2[20], SRC[24]; hx_fill(K2, 20, HX_P_DENSE, 77); hx_fill(SRC, 24, HX_P_DENSE, 9);
+    static const char *opn[] = {"encrypt(ptr)", "encrypt(c,m)", "encrypt(c,m,ad)", "decrypt(ptr) valid", "decrypt(m,c,ad) valid", "decrypt(ptr) forged", "decrypt(m,c) forged", "decrypt(ptr) 7 bytes",
+                                "set_key(K2)", "set_key(x,0)", "set_key refused", "set_nonce(ff..ff)", "set_nonce(5 bytes)", "set_counter"};
+    int total = 1; for (int d = 0; d < depth; d++) total *= 14;
+    for (int code = 0; code < total; code++) {
+        void *h = cpps_new(family, alg); uint8_t cur[16]; memset(cur, 0, 16); REFKEY = ZK; int c = code, bad = 0; char hs[96] = "";
+        for (int p = 0; p <= depth && !bad; p++, c /= 14) {
+            int op = p < depth ? c % 14 : 0, r; uint8_t exp[64], out[64]; size_t adl = 0, ml = 5;
+            if (p < depth) { size_t l = strlen(hs); snprintf(hs + l, sizeof hs - l, "%s%s", p ? "; " : "", opn[op]); }
+            if (op == 1) ml = 9; if (op == 2 || op == 4) { adl = (p & 1) ? 7 : 0; ml = op == 2 ? 0 : 11; }   /* the three-argument forms alternately with an empty associated-data array */
+            hx_stat("transitions", 1);
+            switch (op) {
+            case 0: case 1: case 2:
+                refenc(family, alg, cur, ADB, adl, MSG, ml, exp);
+                r = op == 0 ? cpps_encrypt(h, out, MSG, ml, ADB, adl) : cpps_encrypt_ba(h, out, MSG, ml, ADB, adl, op);
+                if (r != (int)ml + 16 || memcmp(out, exp, ml + 16)) bad = 1; else ref_nonce_inc(cur); break;
+            case 3: case 4:
+                refenc(family, alg, cur, ADB, adl, MSG, ml, exp);
+                r = op == 3 ? cpps_decrypt(h, out, exp, ml + 16, ADB, adl) : cpps_decrypt_ba(h, out, exp, ml + 16, ADB, adl, 2);
+                if (r != (int)ml || memcmp(out, MSG, ml)) bad = 1; else ref_nonce_inc(cur); break;
+            case 5: case 6:
+                refenc(family, alg, cur, ADB, 0, MSG, ml, exp); exp[ml + 9] ^= 4;
+                r = op == 5 ? cpps_decrypt(h, out, exp, ml + 16, ADB, 0) : cpps_decrypt_ba(h, out, exp, ml + 16, ADB, 0, 1);
+                if (r >= 0) bad = 1; break;
+            case 7: r = cpps_decrypt(h, out, MSG, 7, ADB, 0); if (r >= 0) bad = 1; break;
+            case 8: if (!cpps_set_key(h, K2, klen)) bad = 1; REFKEY = K2; break;
+            case 9: if (!cpps_set_key(h, K2, 0)) bad = 1; REFKEY = ZK; break;
+            case 10: if (cpps_set_key(h, K, klen + 1) || cpps_set_key(h, 0, klen)) bad = 1; break;
+            case 11: memset(cur, 0xff, 16); cpps_set_nonce(h, cur, 16); break;
+            case 12: memset(cur, 0, 16); memcpy(cur + 11, SRC, 5); cpps_set_nonce(h, SRC, 5); break;
+            default: memset(cur, 0, 16); memset(cur + 9, 0xff, 7); cpps_set_counter(h, 0x00ffffffffffffffULL); break;
+            }
+            if (bad) hx_fail(kb, "sequence [%s]%s: the result is not the one the (key, nonce) model predicts", hs, p == depth ? " followed by a probing encrypt(ptr)" : "");
+        }
+        cpps_delete(h); hist++; REFKEY = K;
+    }
+    hx_stat("histories", hist); hx_stat("nontrivial", hist);
+    hx_sample("C++ %s %s: all %d sequences of %d calls over 14 operations (3 encrypt forms, 2 valid / 2 forged / 1 short decrypt, 3 keying calls, set_nonce 16 / 5 bytes, set_counter) against a (key, nonce) model", fn[family], family == 3 ? api_isap_name[alg] : api_alg_name[alg], total, depth);
+}
+
 int main(int argc, char **argv)
 {
     hx_init();
@@ -173,6 +220,7 @@ int main(int argc, char **argv)
     if (argc < 3) return 2;
     if (!strcmp(argv[1], "inc")) inc_mode(atoi(argv[2]));
     else if (!strcmp(argv[1], "session")) session_mode(atoi(argv[2]), atoi(argv[3]));
+    else if (!strcmp(argv[1], "cppseq")) cppseq_mode(atoi(argv[2]), atoi(argv[3]), atoi(argv[4]));
     else cpp_mode(atoi(argv[2]), atoi(argv[3]), atoi(argv[4]));
     hx_finish();
     return 0;
